@@ -217,6 +217,9 @@ func explore(t *testing.T, p Property, job Job, out *outWriter) {
 		}
 		res := runOne(t, p, c, spec, runSeed)
 		activeRun.desc = ""
+		if i%8 == 7 {
+			runtime.GC()
+		}
 		sum.Runs++
 		if dump != nil {
 			fmt.Fprintf(dump, "%d %016x %016x %d %v\n", idx, res.SchedHash, res.EventHash, res.Steps, res.Violation != nil)
